@@ -119,7 +119,7 @@ def r4_value_ids(cx):
         f = F.one(impl_self="value_store::" + ty, item="finalize", closure=False, trait="")
         b = F.body(f)
         srt = b.calls(r"::par_sort\w*::<|::sort\w*::<")
-        ok = len(srt) == 1 and ("field", "sorted_indirect") in b.origins(srt[0][1]["args"][0])
+        ok = len(srt) >= 1 and all(("field", "sorted_indirect") in b.origins(t["args"][0]) for _, t in srt)
         # id assignment: stores into data[..].1 inside a loop after the sort
         def last_field_idx(pl):
             fs = [e for e in pl.get("p", []) if isinstance(e, dict) and "f" in e]
@@ -129,10 +129,11 @@ def r4_value_ids(cx):
         fin = [(i, s) for i, blk in enumerate(b.blocks) if not blk.get("cleanup") for s in blk["s"] if s["k"] == "assign" and place_fields(s["lhs"])[-1:] == ["finalized"] and op_const_val(s["rv"].get("op") or {}) is True]
         ok = ok and len(stores) >= 1 and len(fin) == 1
         if ok:
-            ok = all(b.dominates(srt[0][0], i) for i, _ in stores) and all(fin[0][0] in b.reach_after(i) and i not in b.reach_after(fin[0][0]) for i, _ in stores)
+            # (one sort, or alternative sorts selected by a mode: every path to an id assignment passes one of them)
+            ok = all(b.set_dominates({j for j, _ in srt}, i) for i, _ in stores) and all(fin[0][0] in b.reach_after(i) and i not in b.reach_after(fin[0][0]) for i, _ in stores)
         # sort key = the data bytes
         # sort key closure captures self.0.data (the bytes)
-        keyok = len(srt) == 1 and ("field", "data") in b.origins(srt[0][1]["args"][1])
+        keyok = len(srt) >= 1 and all(("field", "data") in b.origins(t["args"][1]) for _, t in srt)
         cx.ob("R4", "R4/%s.finalize" % ty, ok and keyok, f, "%s::finalize sorts sorted_indirect by the data bytes, then assigns value ids in that order, then sets finalized = true" % ty)
     g = F.one(impl_self="value_store::BaseValueStore", item="get", closure=False)
     gb = F.body(g)
